@@ -147,6 +147,67 @@ def float_of_str(eng, x):
     raise ValueError("could not convert string to float")
 
 
+_FLOAT_CLASSES = None
+
+
+def _float_classes():
+    """partition of the alphabet under which float(str)'s outcome class (ValueError / finite / inf / nan, and the sign)
+    is invariant for short strings: (ranges, representative). Computed from the running interpreter."""
+    global _FLOAT_CLASSES
+    if _FLOAT_CLASSES is None:
+        from .strmodels import _ranges_where
+        single = {}
+        for chs in ("+", "-", ".", "_", "eE", "nN", "aA", "iI", "fF", "tT", "yY"):
+            single[chs] = ([(ord(c), ord(c)) for c in chs], chs[0])
+        taken = set(ord(c) for k in single for c in k)
+        classes = list(single.values())
+        classes.append(([(48, 57)], "7"))
+        classes.append((_ranges_where(lambda ch: ch.isdecimal() and ord(ch) > 127), "\u0663"))
+        classes.append((_ranges_where(lambda ch: ch.isspace()), " "))
+        _FLOAT_CLASSES = classes
+    return _FLOAT_CLASSES
+
+
+def m_float_precise(eng, x=0.0):
+    """float(str) with the outcome decided exactly: every symbolic character is forked into its class (sign, point,
+    underscore, exponent letter, the letters of inf/infinity/nan, ASCII digit, other Unicode decimal digit, white
+    space, anything else) and the REAL float() runs on a class-representative string. Valid for strings too short to
+    overflow or underflow through their exponent (checked). The value of a finite result is an uninterpreted double."""
+    if isinstance(x, LazyStr):
+        x = eng.force_str(x)
+    if not isinstance(x, SymStr):
+        return m_float(eng, x)
+    from .strmodels import in_ranges
+    rep = []
+    for c in x.cs:
+        if isinstance(c, int):
+            rep.append(chr(c))
+            continue
+        for ranges, r in _float_classes():
+            if eng.truth(in_ranges(eng, c, ranges)):
+                rep.append(r)
+                break
+        else:
+            rep.append("x")
+    text = "".join(rep)
+    low = text.lower()
+    if "e" in low and len(text.replace("_", "")) > 4 and any(ch.isdigit() for ch in low.split("e")[-1]):
+        raise Unsupported("float(str): exponent long enough to overflow - outcome depends on the digit values")
+    try:
+        v = float(text)
+    except ValueError:
+        raise ValueError("could not convert string to float: " + repr(text)) from None
+    tag = "float()#%d" % eng.fresh_id()
+    fv = z3.FP(tag + ":val", F64)
+    if v != v:
+        eng.add_fact(z3.fpIsNaN(fv))
+    elif v in (float("inf"), float("-inf")):
+        eng.add_fact(z3.And(z3.fpIsInf(fv), z3.fpIsNegative(fv) if v < 0 else z3.fpIsPositive(fv)))
+    else:
+        eng.add_fact(z3.Not(z3.Or(z3.fpIsNaN(fv), z3.fpIsInf(fv))))
+    return SymFloat(fv)
+
+
 def m_bool(eng, x=False):
     if isinstance(x, SymBool):
         return x
@@ -1041,7 +1102,21 @@ def install(eng):
         api.is_symbolic: a_is_symbolic, api.concretize: a_concretize,
     })
     M[math.log2] = m_log2
-    for name in ("log", "log10", "pow", "sqrt", "exp", "isnan", "isinf", "isfinite", "modf", "copysign", "fabs"):
+
+    def _fp_pred(name, on_t, on_exact):
+        def f(eng, x):
+            if isinstance(x, SymFloat):
+                if x.t is not None:
+                    return mkbool(on_t(x.t))
+                return on_exact          # integral / rational / enclosure floats are finite by construction
+            if isinstance(x, (SymInt, SymBV, SymBool)):
+                return on_exact
+            return getattr(math, name)(x)
+        return f
+    M[math.isnan] = _fp_pred("isnan", z3.fpIsNaN, False)
+    M[math.isinf] = _fp_pred("isinf", z3.fpIsInf, False)
+    M[math.isfinite] = _fp_pred("isfinite", lambda t: z3.Not(z3.Or(z3.fpIsNaN(t), z3.fpIsInf(t))), True)
+    for name in ("log", "log10", "pow", "sqrt", "exp", "modf", "copysign", "fabs"):
         M[getattr(math, name)] = m_unmodelled(name)
     from . import symre, dtmodels
     symre.install(eng)
